@@ -270,7 +270,7 @@ pub fn run(rep: &mut Report, rng: &mut Rng, thorough: bool) {
                 let f = if s.fmt.starts_with("xz") { "xz" } else { "lzip" };
                 let multi = s.fmt == "xz-multi";
                 let real = crate::cont::real_decode(f, multi, &s.bytes[..k], cap);
-                rep.model(crate::cont::model_req(f, multi, &s.bytes[..k], cap), crate::cont::expected(f, multi, &s.bytes[..k], cap));
+                crate::cont::model_case(rep, f, multi, &s.bytes[..k], cap);
             }
             match &o {
                 Outcome::Err(..) => rep.count("trunc.err"),
